@@ -51,7 +51,7 @@ func twoUDef(x1, x2 []float64) int {
 func incValues(rng *mon.Rand, k int) []float64 {
 	for try := 0; try < 8; try++ {
 		v := make([]float64, k)
-		kind := rng.Intn(6)
+		kind := rng.Intn(7)
 		var x float64
 		switch kind {
 		case 0:
@@ -66,6 +66,8 @@ func incValues(rng *mon.Rand, k int) []float64 {
 			x = -rng.LogUniform(1e-9, 1e-3)
 		case 5:
 			x = rng.Uniform(-1e-3, 1e-3)
+		case 6: // distinct but nearly equal: neighbouring floats, a few ulps apart
+			x = rng.Pick(0.3, 1, -1, 1e6, -7.25e-5, rng.Uniform(-100, 100))
 		}
 		ok := true
 		for i := 0; i < k; i++ {
@@ -80,6 +82,12 @@ func incValues(rng *mon.Rand, k int) []float64 {
 				step = math.Abs(x) * rng.LogUniform(1e-9, 1e-1)
 			case 4:
 				step = rng.LogUniform(1e-12, 1e-3)
+			case 6:
+				nx := x
+				for u := 1 + rng.Intn(3); u > 0; u-- {
+					nx = math.Nextafter(nx, math.Inf(1))
+				}
+				step = nx - x
 			default:
 				step = rng.LogUniform(1e-300, 1e-3)
 			}
